@@ -133,7 +133,9 @@ def exhaustive(tier):
 
 def scratch_dir():
     root = os.environ.get("VERIF_SCRATCH") or ("/dev/shm" if os.path.isdir("/dev/shm") else None)
-    return tempfile.mkdtemp(prefix="c16-", dir=root)
+    from hv.core import case_dir
+
+    return case_dir("c16", root)
 
 
 def decrypt(data: bytes, key: bytes, aad):
